@@ -271,11 +271,30 @@ def verdictR {α : Type} : Json.Res α → String
 def jsonBlob (input : Bytes) : Json.Res (Json.JsonValue UInt64) :=
   if (Json.fromUtf8 input).isNone then .err else Json.parseBytes Json.bitsOps input
 
+/-- `EntriesV3::find_tile` since 662fbb3f: the binary search of `PMTiles.searchLoop`, then
+    `tile_id.wrapping_sub(entries[n].tile_id) < run_length` (before that commit the subtraction was
+    unchecked and panicked on unsorted directories) -/
+def findTile (l : List PMTiles.Entry) (id : Nat) : Outcome (Option PMTiles.Entry) :=
+  let es := l.toArray
+  match PMTiles.searchLoop es id (es.size + 1) 0 ((es.size : Int) - 1) with
+  | .ok (.hit e) => .ok (some e)
+  | .ok (.stop n) =>
+    if n ≥ 0 then
+      match es[n.toNat]? with
+      | none => .panic
+      | some e =>
+        if e.run = 0 then .ok (some e)
+        else if (id + U64 - e.id) % U64 < e.run then .ok (some e)
+        else .ok none
+    else .ok none
+  | .err => .err
+  | .panic => .panic
+
 /-- `EntriesV3::from_blob` then `find_tile` for every probe id (`panic` if any lookup panics) -/
 def pmFind (input : Bytes) (ids : List Nat) : Outcome Unit :=
   match PMTiles.decDir input with
   | .ok es =>
-    if ids.any (fun id => match PMTiles.findTile es id with | .panic => true | _ => false) then .panic else .ok ()
+    if ids.any (fun id => match findTile es id with | .panic => true | _ => false) then .panic else .ok ()
   | .err => .err
   | .panic => .panic
 
